@@ -41,3 +41,21 @@ int bad_result_bcmp(const void *b1, const void *b2, size_t n) {         /* and-a
     for (; n > 0; n--) r &= *p++ ^ *q++;
     return r != 0;
 }
+/* narrowing clause: the accumulated difference must reach the verdict with all its significant bits */
+int words_narrowed(const void *b1, const void *b2, size_t n) {     /* word accumulator truncated to int before the test */
+    const unsigned long *p = b1, *q = b2; unsigned long acc = 0; int ret;
+    for (n /= sizeof(unsigned long); n > 0; n--) acc |= *p++ ^ *q++;
+    ret = acc;
+    return ret != 0;
+}
+int words_whole(const void *b1, const void *b2, size_t n) {        /* tested at full width */
+    const unsigned long *p = b1, *q = b2; unsigned long acc = 0;
+    for (n /= sizeof(unsigned long); n > 0; n--) acc |= *p++ ^ *q++;
+    return acc != 0;
+}
+int bytes_in_long(const void *b1, const void *b2, size_t n) {      /* a wide accumulator of byte differences: only 8 significant bits, the cast loses nothing */
+    const unsigned char *p = b1, *q = b2; unsigned long acc = 0; int ret;
+    for (; n > 0; n--) acc |= (unsigned long)(*p++ ^ *q++);
+    ret = (int)acc;
+    return ret != 0;
+}
